@@ -418,7 +418,7 @@ def run_here(c):
                     o = {"k": "ok", "n_exec": len(srcs), "numdict": numdict, "dendict": dendict,
                          "src": srcs[-1] if srcs else None,
                          "ir": base.parse_source(srcs[-1]) if srcs else {"kind": "unparsed", "why": "no source generated at this call"},
-                         "asked": list(asked), "callable_mem": st.get("mem_as", "list") in
+                         "asked": asked, "callable_mem": st.get("mem_as", "list") in
                          ("callable_same", "callable_copy", "callable_gen", "callable_tuple", "bound", "partial")
                          and st.get("mem") is not None}
                 except Exception as e:
@@ -668,8 +668,12 @@ def _problems(c, io, drv):
                 out.append(("model", "call-ir", i, "the call generated %s source(s); impl IR %r, model IR %r; source:\n%s" % (
                     o.get("n_exec"), o["ir"], mo["ir"], o.get("src"))))
             if o.get("callable_mem"):
+                # "asked" is what the callable had been asked by the END of the history (when it is asked is not
+                # observable through the outputs unless the caller changes its list in between — which the
+                # histories do); a stream nothing was requested from need not have asked at all
                 lm = len(mo["a"]) - 1
-                if o["asked"] != [lm]:
+                used = any(s2["op"] == "take" and s2["s"] == st["s"] and s2["k"] > 0 for s2 in c["steps"][i + 1:])
+                if o["asked"] != [lm] and (used or o["asked"] != []):
                     out.append(("spec", "call-callable-memory-asked", i,
                                 "the callable memory was asked %r, the property says once for the needed size %d" % (o["asked"], lm)))
         if op == "take" and o["k"] == "outs":
@@ -1255,7 +1259,7 @@ TEMPLATES = [(_h_memalias, 5), (_h_twice, 3), (_h_twins, 3), (_h_coefmut, 3), (_
 
 
 def generate(rng, tier, scale=1):
-    n = (330 if tier == "quick" else 4000) * scale
+    n = (900 if tier == "quick" else 6000) * scale
     pool = [t for t, wgt in TEMPLATES for _ in range(wgt)]
     out = []
     for i in range(n):
